@@ -231,7 +231,10 @@ func (g *c03Gen) stmt(ind string, depth int, inFunc bool) {
 		g.nFun++
 		name := fmt.Sprintf("f%d", g.nFun)
 		collides := false
-		if g.pick("fnNamedLikeVariable", 4) == 1 {
+		if g.jumps && !g.scopes[len(g.scopes)-1]["input"] && g.pick("fnNamedInput", 6) == 0 {
+			// "input" is an ordinary name (the built-in is spelled in Bangla)
+			name, collides = "input", true
+		} else if g.pick("fnNamedLikeVariable", 4) == 1 {
 			// a function named like a variable of the colliding pool: it shadows an outer binding of any kind
 			// (declaring it where the name is already bound in the same scope is left out: undocumented)
 			if v := c03Vars[g.pick("name", len(c03Vars))]; !g.scopes[len(g.scopes)-1][v] {
